@@ -683,13 +683,25 @@ EVENTS = [
      "       ('change_table-forward', ('P', 1, 2, 1), pa), ('change_table-forward', ('P', 26, 56, 3), pb),\n"
      "       ('ion[q]', ('P', 1, 2, 1), P.D.ion[1]), ('ion[q]', ('P', 26, 56, 3), P.Fe[56].ion[3]),\n"
      "       ('change_table-back', (1, 2, 1), change_table(pa, T)), ('change_table-back', (26, 56, 3), change_table(pb, T))]"),
+    # lookups by string in this table and in the public one (any index or cache behind name(), symbol(),
+    # isotope() must be per table): the order of the two events is what matters
+    ("strings:T",
+     "obs = [('name()', (26, 0, 0), T.name('iron')), ('name()', (1, 2, 0), T.name('deuterium')),\n"
+     "       ('symbol()', (26, 0, 0), T.symbol('Fe')), ('symbol()', (1, 2, 0), T.symbol('D')),\n"
+     "       ('isotope()', (26, 56, 0), T.isotope('56-Fe')), ('isotope()', (1, 2, 0), T.isotope('D')),\n"
+     "       ('index', (26, 0, 0), T[26]), ('el[A]', (26, 56, 0), T[26][56]), ('el[A]', (1, 2, 0), T[1][2])]"),
+    ("strings:P",
+     "obs = [('name()', ('P', 26, 0, 0), P.name('iron')), ('name()', ('P', 1, 2, 0), P.name('deuterium')),\n"
+     "       ('symbol()', ('P', 26, 0, 0), P.symbol('Fe')), ('symbol()', ('P', 1, 2, 0), P.symbol('D')),\n"
+     "       ('isotope()', ('P', 26, 56, 0), P.isotope('56-Fe')), ('isotope()', ('P', 1, 2, 0), P.isotope('D')),\n"
+     "       ('index', ('P', 26, 0, 0), P[26]), ('el[A]', ('P', 26, 56, 0), P[26][56]), ('el[A]', ('P', 1, 2, 0), P[1][2])]"),
     ("parse",
      "f = formula('Fe{2+}Fe[56]{3+}D{+}', table=T)\n"
      "obs = [('parse', atomkey(a), a) for a in leaves(f.structure)]"),
 ]
 EVENT_CODE = dict(EVENTS)
 PARSE_KEYS = ((26, 0, 2), (26, 56, 3), (1, 2, 1))
-PLAIN_ROUTES = ("ion[q]", "attr", "index", "el[A]", "isotope()")
+PLAIN_ROUTES = ("ion[q]", "attr", "index", "el[A]", "isotope()", "name()", "symbol()")
 SEQ_CHECK = """for route, key, obj in obs:
     if atomkey(obj) != key[-3:]:
         print('WRONG ATOM for', key, ':', route, 'returned', repr(obj), atomkey(obj))
